@@ -39,13 +39,13 @@ Definition hist : list (@bevent lreq) :=
   [EConsume ([1; 2; 3; 4; 5], false); EConsume ([6], false); EResult 1 false; EResult 2 true; EResult 0 false; EShutdown].
 
 Example ex_hist :
-  let st := fst (brun (lsplit 2) lsizeof 2 hist) in
+  let st := fst (brun (lsplit 0 2) lsizeof 2 hist) in
   (b_fired st, b_cur st, b_flying st) = ([(1%nat, true); (0%nat, true)], None, []).
 Proof. vm_compute. reflexivity. Qed.
 
 (* the hypotheses of done_exactly_once hold at the end of that history, and both requests are below the count *)
 Example ex_hist_quiescent :
-  let st := fst (brun (lsplit 2) lsizeof 2 hist) in
+  let st := fst (brun (lsplit 0 2) lsizeof 2 hist) in
   b_cur st = None /\ b_flying st = [] /\
   length (filter (fun e => match e with EConsume _ => true | _ => false end) hist) = 2%nat /\
   fcount 0 (b_fired st) = 1 /\ fcount 1 (b_fired st) = 1.
@@ -53,7 +53,7 @@ Proof. vm_compute. repeat split; reflexivity. Qed.
 
 (* done_only_after_batches is not vacuous: before the last result, request 0 is still referred to *)
 Example ex_hist_refers :
-  let st := fst (brun (lsplit 2) lsizeof 2 (firstn 4 hist)) in
+  let st := fst (brun (lsplit 0 2) lsizeof 2 (firstn 4 hist)) in
   fcount 0 (b_fired st) = 0 /\ 0 < live 0 (b_refs st).
 Proof. vm_compute. split; reflexivity. Qed.
 
@@ -94,3 +94,16 @@ Example ex_itemless_now_split :
     (merge_split w_unit Bytes 429 ib_a (Some ib_b))
   = Some [(387, 0%nat); (374, 1%nat); (398, 1%nat)].
 Proof. vm_compute. reflexivity. Qed.
+
+(* results that are NOT filled to max (slack 1), min_size = max_size = 4: a parked request [1] is merged with
+   [2..7]; MergeSplit returns [1;2;3] (below min_size!), [4;5;6;7]: the first result is flushed although it
+   is below min_size because more than one result came back (the `len(reqList) > 1` disjunct of Consume), the last
+   one is parked; nothing is lost and both callbacks fire once all batches return *)
+Example ex_first_result_below_min :
+  let st := fst (brun (lsplit 1 4) lsizeof 4
+                   [EConsume ([1], false); EConsume ([2; 3; 4; 5; 6; 7], false); EShutdown;
+                    EResult 0 false; EResult 1 false; EResult 2 false]) in
+  (map (fun x => fst (snd (fst x))) (b_flying st), b_fired st, b_cur st)
+  = ([], [(0%nat, false); (1%nat, false)], None) /\
+  lsplit 1 4 ([1], false) (Some ([2; 3; 4; 5; 6; 7], false)) = Some [([1; 2; 3], false); ([4; 5; 6; 7], false)].
+Proof. vm_compute. split; reflexivity. Qed.
